@@ -1004,6 +1004,10 @@ class GeneralThermodynamics:
             use_global = cs_matrix is None or cs_precip is None or any(np.isnan(chemical_potentials))
             if not use_global:
                 use_global = np.allclose(np.array(cs_matrix.X), np.array(cs_precip.X), rtol=0, atol=1e-6)
+            # The local solver may also end on the lower composition bound of the matrix (an element entirely consumed by the precipitate),
+            # which is not an equilibrium (the precipitate need not even be stable), so this is checked by the global equilibrium as well
+            if not use_global:
+                use_global = np.any(np.array(cs_matrix.X) < 1e-10)
         if use_global:
             wks = self.getEq(x, T, 0, precPhase)
             cs_matrix, cs_precip, miscibility_gap = _process_composition_sets(wks.get_composition_sets())
